@@ -69,6 +69,7 @@ type WorkerSummary struct {
 	Faults     map[string]int `json:"faults"`
 	WallS      float64        `json:"wall_s"`
 	Samples    []interface{}  `json:"samples"`
+	Final      bool           `json:"final"`
 }
 
 type RunResult struct {
@@ -270,8 +271,8 @@ func parseCrash(stderr string) crash {
 			if k := strings.Index(c.Gor, " in goroutine"); k > 0 {
 				c.Gor = c.Gor[:k]
 			}
-			if m := reFrameFile.FindStringSubmatch(lines[i+1]); m != nil {
-				c.Gor += " " + filepath.Base(m[1]) + ":" + m[2]
+			if k := strings.LastIndex(c.Gor, "/"); k >= 0 {
+				c.Gor = c.Gor[k+1:]
 			}
 			break
 		}
@@ -324,7 +325,7 @@ func (b *batch) runWorker(j int, cfg WorkerCfg) (stderr string, code int) {
 	return eb.String(), code
 }
 
-func readOut(path string) (runs []*RunResult, sum *WorkerSummary, lastStart int) {
+func readOut(path string) (runs []*RunResult, sums []*WorkerSummary, lastStart int) {
 	lastStart = -1
 	f, err := os.Open(path)
 	if err != nil {
@@ -345,7 +346,7 @@ func readOut(path string) (runs []*RunResult, sum *WorkerSummary, lastStart int)
 			rr := r
 			runs = append(runs, &rr)
 		case "summary":
-			sum = r.Summary
+			sums = append(sums, r.Summary)
 		}
 	}
 	return
@@ -373,14 +374,12 @@ func (b *batch) explore() {
 					cfg.Samples = 3
 				}
 				stderr, code := b.runWorker(j, cfg)
-				runs, sum, last := readOut(out)
+				runs, sums, last := readOut(out)
 				b.mu.Lock()
 				b.results = append(b.results, runs...)
-				if sum != nil {
-					b.sums = append(b.sums, sum)
-				}
+				b.sums = append(b.sums, sums...)
 				b.mu.Unlock()
-				if code == 0 && sum != nil {
+				if code == 0 && len(sums) > 0 && sums[len(sums)-1].Final {
 					return
 				}
 				c := parseCrash(stderr)
